@@ -110,10 +110,13 @@ def units_for(tier: str) -> List[Any]:
     small = list(programs.linear_programs(2, ('S', 'Y1'), ('cont', 'wait'), ('ret', 'raise')))
     units += [(p, None) for p in programs.with_actions(small, ('cs_ok', 'cs_raise', 'kill'))]
     scripts = [(ev, 1, op) for ev in ('running', 'waiting', 'finished', 'excepted', 'killed')
-               for op in (('kill', 't1'), ('pause',), ('fail',))]
+               for op in (('kill', 't1'), ('pause',), ('fail',), ('addl',))]
     for p in list(programs.linear_programs(2, ('S', 'Y1'), ('cont', 'wait'), ('ret',)))[:6]:
         for s in scripts:
             units.append((p, s))
+    for p in programs.linear_programs(1, ('S', 'Y1'), (), ('raise', 'killcmd')):
+        for ev in ('excepted', 'killed'):
+            units.append((p, (ev, 1, ('addl',))))
     return units
 
 
